@@ -43,6 +43,10 @@
 // WITHOUT arguments counts as an initialisation (in the current tree it does not: it assigns an
 // empty Optional, so Get() right after it would dereference an empty Optional). When the model slot
 // is empty the harness follows such a call by Clear(), which gives "empty" under both readings.
+#include <signal.h>
+#include <sys/mman.h>
+#include <unistd.h>
+
 #include <atomic>
 #include <cinttypes>
 #include <cstdio>
@@ -71,6 +75,8 @@
 #include <nop/utility/buffer_reader.h>
 #include <nop/utility/bounded_writer.h>
 #include <nop/utility/buffer_writer.h>
+#include <nop/utility/fd_reader.h>
+#include <nop/utility/fd_writer.h>
 #include <nop/utility/pedantic_buffer_writer.h>
 #include <nop/utility/stream_reader.h>
 #include <nop/utility/stream_writer.h>
@@ -610,6 +616,26 @@ static std::string op_writer(Ctx& c, const Op& o) {
     if (!w.Skip(nskip, pad) || !w.Write((uint8_t)0x5a)) return "!writer: PedanticBufferWriter::Skip failed";
     if (std::string(buf.begin(), buf.end()) != want) return "!writer-skip: PedanticBufferWriter produced wrong bytes";
   }
+  {
+    // thread-owned FdWriter over its own memfd, then FdReader over the same file
+    int fd = memfd_create("c19w", 0);
+    if (fd < 0) return "!writer: memfd_create failed";
+    int rfd = dup(fd);
+    std::string got;
+    {
+      nop::FdWriter w(fd);   // owns and closes fd
+      for (size_t i = 0; i < n1; i++) if (!w.Write(fill)) { close(rfd); return "!writer: FdWriter::Write failed"; }
+      std::string block(nskip, (char)pad);
+      if (!w.Write(block.data(), block.data() + block.size()) || !w.Write((uint8_t)0x5a)) { close(rfd); return "!writer: FdWriter::Write(block) failed"; }
+    }
+    lseek(rfd, 0, SEEK_SET);
+    {
+      nop::FdReader rd(rfd);   // owns and closes rfd
+      got.resize(want.size());
+      if (!rd.Read(&got[0], &got[0] + got.size())) return "!writer: FdReader::Read failed";
+    }
+    if (got != want) return "!writer-skip: FdWriter / FdReader round trip produced wrong bytes";
+  }
   return "W h=" + hex16(hash_bytes(want));
 }
 
@@ -735,6 +761,17 @@ struct Outcome { std::string message; std::string key; bool ok() const { return 
 
 static std::string clip(const std::string& s) { return s.size() > 160 ? s.substr(0, 160) + "..." : s; }
 
+// Process-wide state an operation on a private object has no business changing: the signal dispositions.
+struct SigSnapshot {
+  struct sigaction a[32];
+  void take() { for (int s = 1; s < 32; s++) { std::memset(&a[s], 0, sizeof a[s]); if (s != SIGKILL && s != SIGSTOP) sigaction(s, nullptr, &a[s]); } }
+  int first_difference(const SigSnapshot& o) const {
+    for (int s = 1; s < 32; s++) if (s != SIGKILL && s != SIGSTOP && (a[s].sa_handler != o.a[s].sa_handler || a[s].sa_flags != o.a[s].sa_flags)) return s;
+    return 0;
+  }
+};
+static void sigpipe_handler(int) {}
+
 static Outcome run_program(const Program& p, int reps, long* evaluations) {
   const size_t n = p.th.size();
   const uint64_t ph = hash_str(prog_text(p));
@@ -755,6 +792,7 @@ static Outcome run_program(const Program& p, int reps, long* evaluations) {
     const long c0 = AtomicTracked::constructed.load(), d0 = AtomicTracked::destroyed.load(), b0 = AtomicTracked::bad.load();
     std::vector<std::vector<std::string>> got(n);
     std::mutex bm; std::condition_variable bcv; int arrived = 0;   // start barrier (blocking: spinning is costly on a loaded machine)
+    SigSnapshot sig_before; sig_before.take();
     std::vector<std::thread> threads;
     threads.reserve(n);
     for (size_t t = 0; t < n; t++)
@@ -774,6 +812,11 @@ static Outcome run_program(const Program& p, int reps, long* evaluations) {
         });
       });
     for (auto& th : threads) th.join();
+    {
+      SigSnapshot sig_after; sig_after.take();
+      if (int sgn = sig_before.first_difference(sig_after))
+        return {"process-state: the disposition of signal " + std::to_string(sgn) + " changed during the threaded run of repetition " + std::to_string(rep) + " (operations on thread-owned objects must not touch process-wide state)", "C19|threads|process-state"};
+    }
 
     for (size_t t = 0; t < n; t++) {
       const auto& g = got[t]; const auto& e = expect[t];
@@ -841,6 +884,7 @@ int main(int argc, char** argv) {
   Report rep; rep.property = "C19"; rep.tier = a.tier; rep.seed = a.seed; rep.out_path = a.out; rep.unit = a.unit.empty() ? "threads" : a.unit;
   install_report(&rep);
   const bool thorough = a.tier == "thorough";
+  { struct sigaction sa; std::memset(&sa, 0, sizeof sa); sa.sa_handler = sigpipe_handler; sigaction(SIGPIPE, &sa, nullptr); }   // a recognisable application disposition
 
   if (!a.replay.empty()) {
     FILE* f = fopen(a.replay.c_str(), "r"); if (!f) return 2;
